@@ -69,7 +69,13 @@ Inductive pc :=
 | St4 (t c : N)                     (* LD slot rlx *)
 | St5 (t x : N).                    (* CAS top t -> t+1 sc/rlx *)
 
-Record state := mkSt { sh : shared; th : nat -> pc; nalloc : N }.
+(** [g_pushed]/[g_taken] are ghost histories (never read by [step]): values whose try_push completed
+    (appended at the release store of bottom) and values handed out by try_pop/try_steal (appended at
+    the step that decides success). *)
+Record state := mkSt { sh : shared; th : nat -> pc; nalloc : N; g_pushed : list N; g_taken : list N }.
+
+(** the single owner thread (protocol of the deque: only the owner calls try_push/try_pop) *)
+Definition owner : nat := 1.
 
 Inductive action := Start (t : nat) (o : op) | Step (t : nat).
 
@@ -103,7 +109,7 @@ Section WithPolicy.
   Definition L_cap := LNamed 2 0.
 
   Definition init : state :=
-    mkSt (mkSh 0 0 init_cap (flbs init_cap) (fun _ _ => 0)) (fun _ => Idle) 2.
+    mkSt (mkSh 0 0 init_cap (flbs init_cap) (fun _ _ => 0)) (fun _ => Idle) 2 [] [].
 
   Definition set_top (s : shared) v := mkSh v (bottom s) (capacity s) (buckets s) (mem s).
   Definition set_bottom (s : shared) v := mkSh (top s) v (capacity s) (buckets s) (mem s).
@@ -127,13 +133,17 @@ Section WithPolicy.
     match a with
     | Start t o =>
       match th st t with
-      | Idle => Some (mkSt (sh st) (upd (th st) t (Begin o)) (nalloc st), [])
+      | Idle =>
+        if (match o with OSteal => true | _ => Nat.eqb t owner end)
+        then Some (mkSt (sh st) (upd (th st) t (Begin o)) (nalloc st) (g_pushed st) (g_taken st), [])
+        else None
       | _ => None
       end
     | Step t =>
       let s := sh st in
-      let go (s' : shared) (p : pc) (e : list ev) := Some (mkSt s' (upd (th st) t p) (nalloc st), e) in
-      let fin (s' : shared) (r : list N) (e : list ev) := Some (mkSt s' (upd (th st) t Idle) (nalloc st), e ++ [ERet t r]) in
+      let go (s' : shared) (p : pc) (e : list ev) := Some (mkSt s' (upd (th st) t p) (nalloc st) (g_pushed st) (g_taken st), e) in
+      let fin (s' : shared) (r : list N) (e : list ev) := Some (mkSt s' (upd (th st) t Idle) (nalloc st) (g_pushed st) (g_taken st), e ++ [ERet t r]) in
+      let take (s' : shared) (p : pc) (x : N) (e : list ev) := Some (mkSt s' (upd (th st) t p) (nalloc st) (g_pushed st) (g_taken st ++ [x]), e) in
       match th st t with
       | Idle => None
       | Begin o =>
@@ -158,10 +168,9 @@ Section WithPolicy.
         let c := capacity s in
         let e := [ELoad t L_cap mo_rlx (VInt c); EAlloc t (nalloc st) (8 * c)] in
         let s' := set_buckets s (wadd 64 (buckets s) 1) in
-        let st' := mkSt s' (th st) (nalloc st + 1) in
         match grow_moves c b tp with
-        | [] => Some (mkSt s' (upd (th st) t (PuGrowEnd v b c)) (nalloc st + 1), e)
-        | m => Some (mkSt s' (upd (th st) t (PuGrowLd v b c m)) (nalloc st + 1), e)
+        | [] => Some (mkSt s' (upd (th st) t (PuGrowEnd v b c)) (nalloc st + 1) (g_pushed st) (g_taken st), e)
+        | m => Some (mkSt s' (upd (th st) t (PuGrowLd v b c m)) (nalloc st + 1) (g_pushed st) (g_taken st), e)
         end
       | PuGrowLd v b c todo =>
         match todo with
@@ -181,7 +190,9 @@ Section WithPolicy.
         go (set_cap s nc) (Pu4 v b) [EStore t L_cap mo_rel (VInt nc)]
       | Pu4 v b => go s (Pu5 v b (capacity s)) [ELoad t L_cap mo_rlx (VInt (capacity s))]
       | Pu5 v b c => go (set_mem s (slot b c) v) (Pu6 v b) [EStore t (slot_loc (slot b c)) mo_rlx (VInt v)]
-      | Pu6 v b => fin (set_bottom s (wadd 64 b 1)) r_true [EStore t L_bottom mo_rel (VInt (wadd 64 b 1))]
+      | Pu6 v b =>
+        Some (mkSt (set_bottom s (wadd 64 b 1)) (upd (th st) t Idle) (nalloc st) (g_pushed st ++ [v]) (g_taken st),
+              [EStore t L_bottom mo_rel (VInt (wadd 64 b 1)); ERet t r_true])
       (* ---- try_pop ---- *)
       | Po1 => go s (Po2 (bottom s)) [ELoad t L_bottom mo_rlx (VInt (bottom s))]
       | Po2 b =>
@@ -196,12 +207,12 @@ Section WithPolicy.
       | Po6 b x =>
         let tp := top s in
         let e := [ELoad t L_top mo_sc (VInt tp)] in
-        if tp <? b then fin s (r_some x) e
+        if tp <? b then Some (mkSt s (upd (th st) t Idle) (nalloc st) (g_pushed st) (g_taken st ++ [x]), e ++ [ERet t (r_some x)])
         else if b =? tp then go s (Po7 b x tp) e
         else go s (Po8 tp None) e
       | Po7 b x tp =>
         if top s =? tp then
-          go (set_top s (wadd 64 tp 1)) (Po8 (wadd 64 tp 1) (Some x)) [ERmw t L_top mo_rlx (VInt tp) (VInt (wadd 64 tp 1))]
+          take (set_top s (wadd 64 tp 1)) (Po8 (wadd 64 tp 1) (Some x)) x [ERmw t L_top mo_rlx (VInt tp) (VInt (wadd 64 tp 1))]
         else go s (Po8 (top s) None) [ECasF t L_top mo_rlx mo_rlx (VInt (top s)) (VInt tp)]
       | Po8 nb r =>
         fin (set_bottom s nb) (match r with Some x => r_some x | None => r_empty end) [EStore t L_bottom mo_rlx (VInt nb)]
@@ -216,7 +227,7 @@ Section WithPolicy.
       | St4 tp c => go s (St5 tp (rd s (slot tp c))) [ELoad t (slot_loc (slot tp c)) mo_rlx (VInt (rd s (slot tp c)))]
       | St5 tp x =>
         if top s =? tp then
-          fin (set_top s (wadd 64 tp 1)) (r_some x) [ERmw t L_top mo_sc (VInt tp) (VInt (wadd 64 tp 1))]
+          Some (mkSt (set_top s (wadd 64 tp 1)) (upd (th st) t Idle) (nalloc st) (g_pushed st) (g_taken st ++ [x]), [ERmw t L_top mo_sc (VInt tp) (VInt (wadd 64 tp 1)); ERet t (r_some x)])
         else fin s r_empty [ECasF t L_top mo_sc mo_rlx (VInt (top s)) (VInt tp)]
       end
     end.
